@@ -282,7 +282,7 @@ fn evaluate(spec: &Spec, b: &BuildOut) -> (Vec<Finding>, Vec<Expect>) {
                     let shape = if obs.revert.is_some() { "read-reverted" } else { "read-differs-from-initializer" };
                     out.push(Finding {
                         field: Some(i),
-                        key: format!("{shape}|{}|{:?}|ns{}", type_class(&f.ty), f.mode, f.ns.len()),
+                        key: format!("{shape}|{}", type_class(&f.ty)),
                         what: format!("field {}: read expected {:?}, observed {:?}", f.describe(), expect, obs),
                         test: Some((test.clone(), expect.clone(), json!(obs))),
                     });
